@@ -175,7 +175,7 @@ func parseNodeNameArray(b []byte) (names []string, err error) {
 	}
 	n := int(b[0])
 	b = b[1:] // skip len byte
-	if len(b) < n*16+2 {
+	if len(b) < n*18 { // each entry is a 16-byte name followed by 2 bytes of flags
 		return names, packet.ErrFrameLen
 	}
 	for i := 0; i < n; i++ {
